@@ -46,6 +46,11 @@ CHECKS = {
    note="Trusted: Coq kernel; hand model Model/Containers.v; the generator computes the edge list in the scoper's visiting order. Known finding D21 (resolver panic on a pointer to a self-containing structure). Print Assumptions: closed.",
    technique="Coq proof: reachability-closure invariant, cycle iff code, depth = longest path (permutation invariance), sort respects dependencies; differential correspondence + metamorphic permutation execution",
    design="5/C11"),
+ "C10": dict(
+   text="Machine-checked proof (Coq) that `|:T|` as the generator computes it equals the storage LLVM allocates for T under the module data layout (and the generator's divisibility assert cannot fire), that `|:[N]T|` = N * `|:T|`, that the type checker's word size (the E380 test) equals LLVM's allocation size for words of primitive members and never under-estimates it for nested words, and that structure sizes follow member sizes and alignment (offsets aligned, members disjoint, size a multiple of the alignment, monotone). The model's constants are checked against the translator's reading of value_type.rs. Tie: generated struct/word declarations whose sizes are printed at run time and compared with the extracted model; E380 iff the model rejects. Constant folding vs run time and named array lengths are established by execution (constant next to a variable with the same initialiser, both vs the interpreter), not by proof (partial: LLVM's folder is outside the model).",
+   note="Trusted: Coq kernel; LLVM StructLayout and ABI alignments as transcribed in Model/Layout.v; LLVM/lli; interpreter Model/Sem.v. Print Assumptions: closed.",
+   technique="Coq proof: typer layout = LLVM layout (exact for primitives, conservative for nested words), size-of = allocation size; differential execution of generated layouts and constant expressions",
+   design="5/C10"),
 }
 
 NOT_YET = {
